@@ -112,10 +112,14 @@ bool TemporalMetricStorage::buildMetrics(CollectorHandle *collector,
           }
           else
           {
-            merged_metrics->Set(attributes,
-                                DefaultAggregation::CreateAggregation(
-                                    aggregation_type_, instrument_descriptor_, aggregation_config_)
-                                    ->Merge(aggregation));
+            // A new series: GetOrSetDefault() yields its (fresh) slot or, at the cardinality limit,
+            // the overflow series, so that folding merges into the overflow series instead of
+            // overwriting it.
+            auto slot = merged_metrics->GetOrSetDefault(attributes, [this]() {
+              return DefaultAggregation::CreateAggregation(aggregation_type_, instrument_descriptor_,
+                                                           aggregation_config_);
+            });
+            merged_metrics->Set(attributes, slot->Merge(aggregation));
           }
           return true;
         });
@@ -145,9 +149,11 @@ bool TemporalMetricStorage::buildMetrics(CollectorHandle *collector,
             }
             else
             {
-              auto def_agg = DefaultAggregation::CreateAggregation(
-                  aggregation_type_, instrument_descriptor_, aggregation_config_);
-              merged_metrics->Set(attributes, def_agg->Merge(aggregation));
+              auto slot = merged_metrics->GetOrSetDefault(attributes, [this]() {
+                return DefaultAggregation::CreateAggregation(
+                    aggregation_type_, instrument_descriptor_, aggregation_config_);
+              });
+              merged_metrics->Set(attributes, slot->Merge(aggregation));
             }
             return true;
           });
